@@ -32,10 +32,41 @@ var scanSpans = []span{{"a", "z"}, {"a", "b"}, {"b", "c"}, {"a", "c"}, {"b", "z"
 // by ScanInternal, written into an empty DB in sequence-number order, must give the same visible
 // state inside the span as the source (the model) at the scan's sequence number.
 func (r *run) scanInternalReplay() string {
+	if d := r.scanInternalReplayOf("DB", r.x.D, r.m); d != "" {
+		return d
+	}
+	// the same through every open snapshot and eventually-file-only snapshot, against the model of
+	// its creation (a classic snapshot that lost a span to a later excise is skipped: documented
+	// exception)
+	for _, rd := range r.readers {
+		switch {
+		case rd.kind == "snap" && len(rd.excised) == 0:
+			if d := r.scanInternalReplayOf(fmt.Sprintf("snapshot opened at step %d", rd.born), rd.snap, rd.m); d != "" {
+				return d
+			}
+		case rd.kind == "efos":
+			if d := r.scanInternalReplayOf(fmt.Sprintf("file-only snapshot opened at step %d", rd.born), rd.efos, rd.m); d != "" {
+				return d
+			}
+		}
+	}
+	return ""
+}
+
+type internalScanner interface {
+	ScanInternal(ctx context.Context, opts pebble.ScanInternalOptions) error
+}
+
+func (r *run) scanInternalReplayOf(what string, src internalScanner, m *hx.Model) string {
 	for _, sp := range scanSpans {
+		if _, isEFOS := src.(*pebble.EventuallyFileOnlySnapshot); isEFOS && (sp.lo != "a" || sp.hi != "c") {
+			continue // the file-only snapshots of this harness protect [a,c) only
+		} else if what != "DB" && (sp.lo != "a" || (sp.hi != "z" && sp.hi != "c")) {
+			continue // two spans are enough for the readers
+		}
 		var items []scanItem
 		ord := 0
-		err := r.x.D.ScanInternal(context.Background(), pebble.ScanInternalOptions{
+		err := src.ScanInternal(context.Background(), pebble.ScanInternalOptions{
 			IterOptions: pebble.IterOptions{KeyTypes: pebble.IterKeyTypePointsAndRanges, LowerBound: []byte(sp.lo), UpperBound: []byte(sp.hi)},
 			VisitPointKey: func(key *pebble.InternalKey, value pebble.LazyValue, _ pebble.IteratorLevel) error {
 				v, _, err := value.Value(nil)
@@ -64,7 +95,7 @@ func (r *run) scanInternalReplay() string {
 			},
 		})
 		if err != nil {
-			return fmt.Sprintf("ScanInternal[%s,%s): %v", sp.lo, sp.hi, err)
+			return fmt.Sprintf("%s: ScanInternal[%s,%s): %v", what, sp.lo, sp.hi, err)
 		}
 		sort.SliceStable(items, func(i, j int) bool { return items[i].seq < items[j].seq })
 		dst, err := hx.Open(vfs.NewMem(), "replay", hx.Config{Name: "replay"})
@@ -104,13 +135,13 @@ func (r *run) scanInternalReplay() string {
 		if err != nil || err2 != nil {
 			return fmt.Sprintf("reading replayed DB: %v %v", err, err2)
 		}
-		want := filter(r.m.Points(), sp)
+		want := filter(m.Points(), sp)
 		got = filter(got, sp)
 		if g, w := hx.PointsString(got), hx.PointsString(want); g != w {
-			return fmt.Sprintf("span [%s,%s): ScanInternal produced [%s]; replayed into an empty DB it shows {%s}, the source shows {%s}", sp.lo, sp.hi, strings.Join(trace, " "), g, w)
+			return fmt.Sprintf("%s, span [%s,%s): ScanInternal produced [%s]; replayed into an empty DB it shows {%s}, the source shows {%s}", what, sp.lo, sp.hi, strings.Join(trace, " "), g, w)
 		}
-		if g, w := hx.SpansString(spans), hx.SpansString(r.m.Spans(sp.lo, sp.hi)); g != w {
-			return fmt.Sprintf("span [%s,%s): range keys after replay %s, source %s (scan: %s)", sp.lo, sp.hi, g, w, strings.Join(trace, " "))
+		if g, w := hx.SpansString(spans), hx.SpansString(m.Spans(sp.lo, sp.hi)); g != w {
+			return fmt.Sprintf("%s, span [%s,%s): range keys after replay %s, source %s (scan: %s)", what, sp.lo, sp.hi, g, w, strings.Join(trace, " "))
 		}
 	}
 	return ""
